@@ -11,6 +11,7 @@ INVARIANT Range
 INVARIANT EndPoints
 INVARIANT CosineLaw
 INVARIANT Triangle
+INVARIANT BroadcastSound
 PROPERTY AngleInvariant
 PROPERTY RigidLengths
 PROPERTY ScaleLaw
